@@ -203,10 +203,13 @@ def embed_case(case):
     kw1 = build()
     try: r1 = getattr(mod, case['routine'])(**kw1)
     except Exception as e: return 'skip-plain-' + type(e).__name__
-    kw2 = build(); pad, off = case.get('pad', 2), case.get('off', 3)
+    kw2 = build(); pad, off0 = case.get('pad', 2), case.get('off', 3)
+    # the same offset for every array, or a different one for each (a wrapper that adds the offset of one argument to another is invisible with equal offsets)
+    names_ = sorted(case['emb'], reverse=(case.get('distinct') == 2))
+    offs = {an: off0 + (3 * i if case.get('distinct') else 0) for i, an in enumerate(names_)}
     layout = {}
     for an, e in case['emb'].items():
-        X = kw2[an]; m, n = X.size
+        X = kw2[an]; m, n = X.size; off = offs[an]
         if e.get('ld'):
             ld = max(1, m) + pad
             E = matrix(SENT, (off + ld * max(n, 1), 1), X.typecode)
@@ -230,21 +233,22 @@ def embed_case(case):
             return abs(a - b) > 1e-7 * (1.0 + abs(a))
         if math.isnan(a) or math.isnan(b): return not (math.isnan(a) and math.isnan(b))
         return abs(a - b) > 1e-7 * (1.0 + abs(a))
+    differs = None
     for an, v in kw1.items():
         if not hasattr(v, 'size'): continue
         if an in layout:
-            m, n, ld = layout[an]; E = kw2[an]
+            m, n, ld = layout[an]; E = kw2[an]; off = offs[an]
             inside = set()
             for j in range(n):
                 for i in range(m):
                     inside.add(off + i + j * ld)
-                    if bad(v[i, j], E[off + i + j * ld]): return 'result-differs-' + an
+                    if differs is None and bad(v[i, j], E[off + i + j * ld]): differs = 'result-differs-' + an
             for k in range(len(E)):
-                if k not in inside and E[k] != SENT: return 'sentinel-changed-' + an
+                if k not in inside and E[k] != SENT: return 'sentinel-changed-' + an          # (a write outside the documented block is reported first)
         else:
             w2 = kw2[an]
-            if v.size != w2.size or any(bad(a, b) for a, b in zip(v, w2)): return 'result-differs-' + an
-    return 'ok'
+            if differs is None and (v.size != w2.size or any(bad(a, b) for a, b in zip(v, w2))): differs = 'result-differs-' + an
+    return differs or 'ok'
 
 for line in sys.stdin:
     case = json.loads(line)
